@@ -672,6 +672,23 @@ ExecInstrC(S, t, ch) ==
                                  THEN [@ EXCEPT ![ck].aborted = TRUE,
                                                 ![ck].armed = @ \/ ~(ck \in CmdAnc(S, T.cmd))]
                                  ELSE (ck :> AbortStub) @@ @])
+    [] I.op \in {"trynext", "tryrecv"} ->
+         \* next().now_or_never(): one poll with a waker that does nothing.  A stream's request is sent by
+         \* its first poll whoever polls; a pending poll leaves the do-nothing waker behind in place of
+         \* whatever was registered
+         LET r     == IF I.op = "trynext" THEN T.streams[I.s].rid ELSE T.chans[I.c]
+             first == I.op = "trynext" /\ r \notin DOMAIN S.reqs
+             S0    == IF ~first THEN S
+                      ELSE AddOut([S EXCEPT !.reqs = @ @@ (r :> NewReqL("many", t, T.streams[I.s].tag, T.streams[I.s].val,
+                                                                          T.legacy \/ T.streams[I.s].l)),
+                                            !.tasks[t].en = @ + 1],
+                                  IF (T.streams[I.s].l /\ ~T.legacy) THEN TopCmd(S) ELSE T.cmd,
+                                  {EffItem(r, T.streams[I.s].tag, T.streams[I.s].val, T.en)})
+             q     == S0.reqs[r] IN
+         IF q.chan # <<>>
+         THEN adv([S0 EXCEPT !.reqs[r].chan = Tail(@), !.tasks[t].regs[I.dst] = Head(q.chan)])
+         ELSE adv([S0 EXCEPT !.reqs[r].reg = IF (IsChan(q) /\ q.tx = {}) \/ (~IsChan(q) /\ ~q.senderAlive) THEN @ ELSE "none",
+                             !.tasks[t].regs[I.dst] = 0])
     [] I.op = "chan" ->
          LET k == <<t[1], t[2], 0 - I.c>> IN
          adv([S EXCEPT !.reqs = (k :> NewChan(t)) @@ @, !.tasks[t].chans[I.c] = k])
